@@ -56,6 +56,26 @@ def _loosen(rng, mode, thrs):
     return out
 
 
+def _spice(rng, mode, thrs, thrs2):
+    """threshold values that are legal but rarely written: exactly 0 (the loosest IoU / the tightest distance) and
+    integer-typed numbers (set_thresholds accepts any Real); the pair stays ordered (thrs2 at least as loose)"""
+    thrs, thrs2 = list(thrs), list(thrs2)
+    if rng.random() < 0.2:
+        i = rng.randrange(len(thrs))
+        if mode in ("center", "plane"):
+            thrs[i] = 0.0  # nothing is closer than 0: every result of that label is FP under the tight list
+        else:
+            thrs2[i] = 0.0
+    if rng.random() < 0.2:
+        as_int = lambda v: int(v) if float(v).is_integer() else v  # noqa
+        which = rng.choice(["tight", "loose", "both"])
+        if which in ("tight", "both"):
+            thrs = [as_int(v) for v in thrs]
+        if which in ("loose", "both"):
+            thrs2 = [as_int(v) for v in thrs2]
+    return thrs, thrs2
+
+
 def _pair_scene(rng):
     k = rng.randint(1, 4)
     pool = ["car", "bicycle", "pedestrian", "motorbike"]
@@ -64,16 +84,18 @@ def _pair_scene(rng):
         targets[rng.randrange(k)] = "false_positive"  # outside the oracle's AP domain, inside the correspondence
     mode = rng.choice(MODES)
     thrs = base._thr(rng, mode, k)
+    thrs, thrs2 = _spice(rng, mode, thrs, _loosen(rng, mode, thrs))
     return {"kind": "pair", "src": "scene", "targets": targets, "policy": rng.choice(["DEFAULT", "DEFAULT", "ALLOW_UNKNOWN", "ALLOW_ANY"]),
-            "mode": mode, "thrs": thrs, "thrs2": _loosen(rng, mode, thrs),
+            "mode": mode, "thrs": thrs, "thrs2": thrs2,
             "frame": base._scene(rng, [t for t in targets if t != "false_positive"] or ["car"])}
 
 
 def _pair_long(rng, nmax):
     c = base._long_case(rng, nmax)
     c.pop("nested", None)
-    return {"kind": "pair", "src": "items", "targets": c["targets"], "mode": c["mode"], "thrs": c["thrs"],
-            "thrs2": _loosen(rng, c["mode"], c["thrs"]), "items": c["items"], "G": c["G"]}
+    thrs, thrs2 = _spice(rng, c["mode"], c["thrs"], _loosen(rng, c["mode"], c["thrs"]))
+    return {"kind": "pair", "src": "items", "targets": c["targets"], "mode": c["mode"], "thrs": thrs,
+            "thrs2": thrs2, "items": c["items"], "G": c["G"]}
 
 
 def _pair_manager(rng):
@@ -82,7 +104,7 @@ def _pair_manager(rng):
     fam = {}
     for m in MODES:
         t = base._thr(rng, m, k)
-        fam[m] = [t, _loosen(rng, m, t)]
+        fam[m] = list(_spice(rng, m, t, _loosen(rng, m, t)))
     return {"kind": "pair", "src": "manager", "targets": targets, "policy": rng.choice(["DEFAULT", "ALLOW_UNKNOWN", "ALLOW_ANY"]),
             "fam": fam, "frames": [base._scene(rng, targets, 5) for _ in range(rng.randint(1, 3))]}
 
